@@ -397,8 +397,18 @@ class Ctx:
             s.add(c)
         if extra is not None:
             s.add(extra)
-        if s.check() != z3.sat:
-            return None
+        # prefer a generic point (no symbol 0 or +-1, all distinct, spread out): degenerate values hide differences on replay
+        s.push()
+        vs = [self.zv[n] for n in self.names]
+        for i, v in enumerate(vs):
+            s.add(v != 0, v != 1, v != -1)
+            for w in vs[:i]:
+                s.add(v != w, v != -w, v - w != 1, w - v != 1)
+        r = s.check()
+        if r != z3.sat:
+            s.pop()
+            if s.check() != z3.sat:
+                return None
         m = s.model()
         pt = {}
         for n in self.names:
